@@ -6,7 +6,7 @@ from ..oracles import cmark, htmlnorm, rules_ref
 from ..runner import Run
 from .c07 import CRASH_RE
 
-PLAN = {"B2/53": 900, "B3/89": 500, "B4/83": 250, "N1/11": 1200, "W1/2": 1000, "S2": 700, "S3": 150, "I4/97": 250, "H4": 1200, "P2": 900, "R2/3": 600, "R3": 300}
+PLAN = {"B2/53": 900, "B3/89": 500, "B4/83": 250, "N1/11": 1200, "W1/2": 1000, "S2": 700, "S3": 150, "I4/97": 250, "H4": 1200, "P2": 900, "R2/3": 600, "R3": 300, "T4/3": 400}
 EVALUATOR = "vp.props.c06:ev"
 RULE = (
     "documents = sub-lattices of the bounded universes on which C03's oracle holds (the independent parser agrees on the block structure), without pragmas / front matter / CR; "
